@@ -194,3 +194,31 @@ Definition present (b : N) (pieces : list (N * list N)) : bool := existsb (fun p
 
 (* observation *)
 Definition row_obs (r : row) : N * N * bool * option N := (r_board r, r_channel r, r_leading r, r_time r).
+
+(* keys of the rows / of the timestamp entries, used to state `one row per timestamp entry, in order` *)
+Fixpoint ts_keys (b : N) (l : list entry) : list (N * N * bool) :=
+  match l with
+  | [] => []
+  | TS ch tr _ :: t => (b, ch, negb tr) :: ts_keys b t
+  | MK _ _ :: t => ts_keys b t
+  end.
+Definition row_key (r : row) : N * N * bool := (r_board r, r_channel r, r_leading r).
+
+Fixpoint count_ts (l : list entry) : nat :=
+  match l with
+  | [] => O
+  | TS _ _ _ :: t => S (count_ts t)
+  | MK _ _ :: t => count_ts t
+  end.
+
+(* the rows of all boards from their parsed FIFOs *)
+Definition rows_of_fifos (fs : list (N * list entry)) : list row :=
+  flat_map (fun bf => rows_spec (fst bf) None (snd bf)) fs.
+
+(* lookup in the buffers *)
+Fixpoint bt_lookup (m : buffers) (b : N) : option (list N) :=
+  match m with
+  | [] => None
+  | (b', buf) :: m' => if b =? b' then Some buf else bt_lookup m' b
+  end.
+Definition keys (m : buffers) : list N := map fst m.
